@@ -227,6 +227,20 @@ impl Table {
     ) -> TableReadResult<Vec<u8>> {
         // Handy alias to the block size as a `usize`
         let block_data_size: usize = block_handle.get_size() as usize;
+        // A handle that points outside of the file comes from a damaged footer or index block.
+        // Check before allocating: its size field may claim any number of bytes.
+        let file_length = file.len()?;
+        let maybe_block_end = block_handle
+            .get_offset()
+            .checked_add(block_handle.get_size())
+            .and_then(|end| end.checked_add(BLOCK_DESCRIPTOR_SIZE_BYTES as u64));
+        if maybe_block_end.map_or(true, |block_end| block_end > file_length) {
+            return Err(ReadError::FailedToParse(
+                "Failed to read the block. The block handle points outside of the file."
+                    .to_string(),
+            ));
+        }
+
         // The total block size is the size on disk plus the descriptor size
         let total_block_size: usize = block_data_size + BLOCK_DESCRIPTOR_SIZE_BYTES;
         let mut raw_block_data: Vec<u8> = vec![0; total_block_size];
